@@ -244,6 +244,10 @@ def evaluate(cases, rep, tag="cases"):
         rep.dist("weighted" if case.get("weighted") else "unweighted")
         if case.get("filter_fraction"):
             rep.dist("filtered-query(population fraction != 1)")
+        if case.get("weights_scaled"):
+            rep.dist("weights-scaled-down(weighted bases between 0 and 1)")
+        if case.get("pairwise_alpha"):
+            rep.dist("pairwise-alpha-in-transforms")
         if any(len(s[1]) > 0 for dd in io["subs"] for s in dd):
             rep.dist("has_difference")
         if io["ndim"] == 2 and io["dims"][1] and io["dims"][3]:
@@ -289,6 +293,20 @@ def run(tier, seed):
     # cube's population fraction): one response in five carries filter statistics with a fraction != 1
     # (old-style filtered / unfiltered weighted n, or filter_stats.filtered_complete.weighted); variance,
     # standard deviation, standard error and margin of error do not depend on them
+    # SMALL WEIGHTS and a PAIRWISE ALPHA (after seeded changes C11-9 / C11-10: the standard error divided by
+    # max(base, 1); the margin of error took its z quantile from transforms.pairwise_indices.alpha): one
+    # weighted case in six has all weights divided by 32 / 64 / 1024 (weighted bases between 0 and 1), one
+    # case in six carries a pairwise alpha other than 0.05 - no variance / std-dev / std-err / MoE depends on it
+    from fractions import Fraction
+    srng = random.Random(seed * 131 + 9)
+    for case in cases:
+        if case.get("weighted") and not case.get("dominant") and srng.random() < 0.17:
+            cc.scale_weights(case, Fraction(1, srng.choice([32, 64, 1024])))
+        if srng.random() < 0.17:
+            tr = dict(case.get("transforms") or {})
+            tr["pairwise_indices"] = {"alpha": srng.choice([[0.01], [0.1], [0.05, 0.01], [0.2, 0.001]])}
+            case["transforms"] = tr
+            case["pairwise_alpha"] = True
     frng = random.Random(seed * 613 + 3)
     for case in cases:
         if frng.random() < 0.2:
